@@ -30,6 +30,41 @@ pub fn latex() -> F {
 pub fn han() -> F {
     F { name: "han", e: &E_HAN, l: &lf::FORMAT_HAN, names: &["a", "b1", "x-y", "0", "Zz9", "k\u{e0101}", "q٣²", "p--q", "甲", "乙将"], extra_names: &["x_y", "é", "😀", "A1", "p---q", "x_", "\u{1fb93}\u{f0000}", "a0123456789b0123456789c0123456789d0123456789e0123456789f0123456789"] }
 }
+thread_local! {
+    /// one enum and one lexical format instance per thread that `in_slot` overwrites in place
+    static E_SLOT: std::cell::UnsafeCell<Option<Box<EnumFormat<&'static str>>>> = const { std::cell::UnsafeCell::new(None) };
+    static L_SLOT: std::cell::UnsafeCell<Option<Box<LexFormat>>> = const { std::cell::UnsafeCell::new(None) };
+}
+
+/// The format `f` as instances of the caller's own that live WHERE THE PREVIOUS ONES LIVED: this thread's two
+/// format slots are overwritten in place with copies of `f`'s enum format and a freshly created lexical format
+/// of the same name ("`current = FORMAT_HAN; ... current = FORMAT_ASCII;`"). The returned references are valid
+/// until the next call of `in_slot` on this thread (the ops that use them do not keep them).
+pub fn in_slot(f: &F) -> F {
+    let e: &'static EnumFormat<&'static str> = E_SLOT.with(|s| unsafe {
+        let slot = &mut *s.get();
+        match slot {
+            Some(b) => **b = f.e.clone(),
+            None => *slot = Some(Box::new(f.e.clone())),
+        }
+        &*(slot.as_ref().unwrap().as_ref() as *const EnumFormat<&'static str>)
+    });
+    let fresh = || match f.name {
+        "ascii" => lf::create_format_ascii(),
+        "latex" => lf::create_format_latex(),
+        _ => lf::create_format_han(),
+    };
+    let l: &'static LexFormat = L_SLOT.with(|s| unsafe {
+        let slot = &mut *s.get();
+        match slot {
+            Some(b) => **b = fresh(),
+            None => *slot = Some(Box::new(fresh())),
+        }
+        &*(slot.as_ref().unwrap().as_ref() as *const LexFormat)
+    });
+    F { e, l, ..*f }
+}
+
 pub fn all() -> [F; 3] {
     [ascii(), latex(), han()]
 }
